@@ -179,20 +179,22 @@ def improve_node_matrix_constraint(pomdp, V, node, *, solver=Solvers.scipy_lp, s
     # Unpack the solution.
     epsilon = result.solution[epsilon_idx].item()
 
-    canz = np_no_copy_reshape(result.solution[canz_idxs], canz_shape)
+    # The solver honours bounds and constraints only up to its feasibility tolerance (1e-7):
+    # entries can come out as -1e-8, and sum_{n_z} c_{a,n_z} = c_a holds only approximately.
+    # Remove that noise, so that what we return is a probability distribution exactly.
+    canz = np.clip(np_no_copy_reshape(result.solution[canz_idxs], canz_shape), 0, None)
     # Computing c_a using c_{a,n_z}
     c_a = canz[:, arbitrary_obs, :].sum(axis=-1)
-    action_strategy = c_a
+    action_strategy = c_a / c_a.sum()
 
-    # c_a can be zero at times; we make sure to correct invalid results of division in the next line.
+    # p(n_z | a, z): each row is normalised by its own sum (equal to c_a up to the tolerance).
+    row_sums = canz.sum(axis=-1, keepdims=True)
     with np.errstate(divide='ignore', invalid='ignore'):
-        observation_strategy = canz/c_a[:, None, None]
-    # HACK: for actions with near-0 probabilities, we code in a uniform distribution over next internal states since
-    # the above division by a near-0 p(a|s) usually means this doesn't sum to 1 because of numerical errors.
-    # We mostly do this because we check that these distributions sum to 1 in other methods.
-    # The threshold has to be above the LP solver's feasibility tolerance (1e-7): below it the
-    # constraints sum_{n_z} c_{a,n_z} = c_a only hold up to that tolerance, so the ratios are noise.
-    observation_strategy[np.isclose(c_a, np.zeros(c_a.shape), atol=1e-6)] = 1/ncontroller
+        observation_strategy = canz / row_sums
+    # For actions with (near-)0 probability the rows are noise or 0/0; we code in a uniform distribution over
+    # next internal states, since other methods check that these are distributions.
+    negligible = np.isclose(row_sums[..., 0], 0, atol=1e-6) | np.isclose(c_a, 0, atol=1e-6)[:, None]
+    observation_strategy[negligible] = 1/ncontroller
     assert np.allclose(observation_strategy.sum(-1), 1)
 
     def add_to_fsc(fsc_action, fsc_state, *, inplace=True):
